@@ -74,6 +74,18 @@ def scenarios(tier, seed):
                 for st in ("default", "str"):
                     add(family=f"mn/{conv}/{mname}", kind="mn", conv=conv, model=mname, nodes=nodes, scopes=scopes, card=card, hashseed=hs, states=st,
                         fixed_factors=[0] if len(scopes) > 2 else [], fixed_seed=hs + 1)
+    # chordless 5-cycle with pairwise factors: fill-in cliques contain variables that none of their assigned factors mentions
+    cyc_nodes = ["A", "B", "C", "D", "E"]
+    cyc_scopes = [["A", "B"], ["B", "C"], ["C", "D"], ["D", "E"], ["E", "A"]]
+    for ci, ccard in enumerate([dict(A=2, B=2, C=2, D=2, E=2), dict(A=3, B=2, C=3, D=2, E=2)]):
+        for conv in ["to_junction_tree", "fg_to_junction_tree"]:
+            for st in C.STATE_STYLES[1:]:
+                for hs in range(nh):
+                    if tier == "quick" and (k + hs) % 2:
+                        k += 1
+                        continue
+                    add(family=f"mn/{conv}/mcycle5", kind="mn", conv=conv, model="mcycle5", nodes=cyc_nodes, scopes=cyc_scopes, card=ccard, hashseed=hs,
+                        states=st, fixed_factors=[0, 2, 3], fixed_seed=k + 1)
     # every assignment of names to the roles of card1sep (ties between sepset sizes are broken by clique enumeration order)
     roles, rscopes, rcard = MN_CARD1["card1sep"]
     perms = list(itertools.permutations("ABCDE"))
